@@ -72,6 +72,17 @@ func ruleSharedStateOnSuccess(c *eng.Ctx) {
 					if l, ok := ast.Unparen(a).(*ast.FuncLit); ok {
 						onSuccess[l] = true
 					}
+					// f := func() {…}; txn.OnSuccess(f)
+					if o := eng.ObjOf(info, a); o != nil {
+						ast.Inspect(fi.Decl.Body, func(x ast.Node) bool {
+							if as, ok := x.(*ast.AssignStmt); ok && len(as.Lhs) == 1 && len(as.Rhs) == 1 && eng.ObjOf(info, as.Lhs[0]) == o {
+								if l, ok := ast.Unparen(as.Rhs[0]).(*ast.FuncLit); ok {
+									onSuccess[l] = true
+								}
+							}
+							return true
+						})
+					}
 				}
 			}
 			return true
